@@ -181,3 +181,18 @@ From RS Require Import SchedObs Output OutStmts OutFacts.
 Theorem C17_formation_limit_is_the_smaller_one : stmt_max_formation_spec.
 Proof. exact max_formation_spec. Qed.
 Print Assumptions C17_formation_limit_is_the_smaller_one.
+
+(** The loader caps dead-head durations at the planning horizon, so the network's travel times are not the instance's own where
+    the matrix lists something longer.  Read against the INSTANCE's own matrix (ReachRaw), the reachability of the loaded network
+    is still exactly the documented rule for every valid instance (activity durations positive): the cap can only matter for
+    connections that do not fit into the horizon anyway.  With a zero-duration trip it does change reachability (witness). *)
+From RS Require Import CapStmts CapFacts.
+Theorem C17_capping_dead_heads_keeps_the_instances_reachability : stmt_cap_preserves_reach.
+Proof. exact cap_preserves_reach. Qed.
+Print Assumptions C17_capping_dead_heads_keeps_the_instances_reachability.
+Theorem C17_can_reach_is_the_documented_rule_on_the_instances_matrix : stmt_can_reach_is_the_instances_rule.
+Proof. exact can_reach_is_the_instances_rule. Qed.
+Print Assumptions C17_can_reach_is_the_documented_rule_on_the_instances_matrix.
+Theorem C17_capping_changes_reachability_for_zero_durations : stmt_cap_changes_reach_for_zero_durations.
+Proof. exact cap_changes_reach_for_zero_durations. Qed.
+Print Assumptions C17_capping_changes_reachability_for_zero_durations.
